@@ -126,7 +126,7 @@ def is_inf(x):
     return isinstance(x, float) and math.isinf(x)
 
 
-def random_spec(seed, nvars, max_dom=3, unary=True, nary=False, connected=True, costkinds=("plain", "plain", "func", "dict"), tree=False):
+def random_spec(seed, nvars, max_dom=3, unary=True, nary=False, connected=True, costkinds=("plain", "plain", "func", "dict"), tree=False, same_dom=False):
     """a seeded random problem in the spec format of net.build_dcop: a random spanning tree (when ``connected``) plus a few
     extra binary constraints (cycles -> pseudo-parents), optional unary and ternary constraints, non-identity domains of
     2..max_dom values, some variables with an own cost.  Used by the sampled native pass on shapes that are too large
@@ -140,7 +140,7 @@ def random_spec(seed, nvars, max_dom=3, unary=True, nary=False, connected=True, 
     vars_ = {}
     for i, n in enumerate(names):
         k = rng.randint(2, max_dom)
-        dom = list(pools[i % len(pools)][:k])
+        dom = list(pools[0 if same_dom else i % len(pools)][:k])    # same_dom: equal values of different variables can be confused
         ck = rng.choice(costkinds)
         vars_[n] = dom if ck == "plain" else (dom, ck)
     edges = []
